@@ -12,6 +12,7 @@ AllAuth == {"none", "good", "bad", "malformed", "basic"}
 \* cacheable questions of the exhaustive configs / of the walks
 PairsSmall == {<<"s", "A">>, <<"s", "MX">>, <<"x", "A">>, <<"o", "A">>}
 PairsAll   == {<<"s", "A">>, <<"s", "MX">>, <<"x", "A">>, <<"o", "A">>, <<"o", "MX">>, <<"e", "A">>, <<"wl", "A">>, <<"d", "A">>}
+PairsMid   == {<<"s", "A">>, <<"s", "MX">>, <<"x", "A">>, <<"o", "A">>, <<"o", "MX">>, <<"wl", "A">>}
 BatchesSmall == {{"d", "s"}, {"w", "wl"}, {"o"}, {"d", "o"}}
 BatchesAll == {K \in SUBSET Keys : Cardinality(K) \in 1..3}
 
